@@ -119,9 +119,15 @@ CLAIMS = {
        "the moment of the last delivery and no later than t0 + T, read_until_timeout(T) never raises it and ends exactly at t0 + T; "
        "proved through one generic predicate `Timed` closed under the read_iter step and nesting of deadlines. The Spec is evaluated "
        "on the real Channel under a patched clock for thousands of arrival schedules (trickles, bursts, arrival exactly at the "
-       "deadline, silence).",
-  note="partial: virtual time (tbot infinitely fast between clock reads, transport honours its timeout); slow-send sleeps are exempt "
-       "from the deadline clauses (the timeout is documented for the read-back only); real select() latency not modelled.",
+       "deadline, silence). Auxiliary check C06S (run by the same command): the select loop of SubprocessChannelIO.read/write is "
+       "modelled and proved to satisfy the transport contract the C06 theorems assume — C06S.spec_holds, never_late, never_early, "
+       "timeout_exact, slice_bound, closed_within_slice, zero_timeout_poll, hang_iff, write_guard and chanRead_eq_ioRead (the modelled "
+       "subprocess read IS the scripted transport read of the channel model, so every Channel theorem transfers) — and the REAL "
+       "SubprocessChannelIO.read/write is run with scripted select/os.read/time.monotonic against it.",
+  note="partial: virtual time (tbot infinitely fast between clock reads; for transports other than SubprocessChannelIO, that the "
+       "transport honours its timeout is a hypothesis); slow-send sleeps are exempt from the deadline clauses (the timeout is "
+       "documented for the read-back only); real select() latency not modelled; MIN_READ_WAIT is set to values on the 2^-10 s grid "
+       "(the extracted 0.3 s rounded to 307 ticks, and others) so that float arithmetic is exact.",
   ref="DESIGN.md section 4 C06"),
  "C08": dict(
   text="Theorems C08.attached_invariant, fw_prefix, fw_all, fw_literal, fw_at_prompt, detach_clean, detach_regex, "
